@@ -165,6 +165,16 @@ HANDLER_ARITH = [
 ]
 
 
+def _norm_witness(w, s):
+    """`fact` witnesses are stored with local names replaced by types, like the site keys"""
+    import copy
+    w = copy.deepcopy(w)
+    for x in (w if isinstance(w, list) else [w]):
+        if x.get("kind") == "fact":
+            x["fact"] = census.norm_text(s.tymap, x["fact"])
+    return w
+
+
 def handler_table(P):
     from rules import c05
     hs = c05.handlers(P)
@@ -188,8 +198,12 @@ def handler_table(P):
             used.add(hit[0])
             out.append({"key": s.key, "reason": hit[1]})
     # arithmetic on request coordinates (R-REQ-ARITH): exact keys
+    raw2key = {}
+    for fq in sorted(seen):
+        for s in census.collect_decode_sites(P, P.fn(fq), ()):
+            raw2key[s.rawkey] = s.key
     for key, reason in HANDLER_ARITH:
-        out.append({"key": key, "reason": reason})
+        out.append({"key": raw2key.get(key, key), "reason": reason})
     with open(os.path.join(HERE, "tables", "handler_sites.json"), "w") as fh:
         json.dump({"comment": "reviewed panic-capable sites reachable from the HTTP handlers (C05 R-HANDLER-TOTAL)", "sites": out}, fh, indent=1)
     print("handler table: %d entries; %d notes unused; %d uncovered" % (len(out), len(HANDLER_NOTES) - len(used), len(unc)))
@@ -252,7 +266,7 @@ def main():
             used_notes.add(hit[0])
             e = {"key": s.key, "reason": hit[1]}
             if hit[2]:
-                e["witness"] = hit[2]
+                e["witness"] = _norm_witness(hit[2], s)
             out.append(e)
     with open(os.path.join(HERE, "tables", "panic_sites.json"), "w") as fh:
         json.dump({"comment": "reviewed panic-capable sites reachable from decoders (C19 R-PANIC); one named site per entry, generated from tools_tables.py review notes", "sites": out}, fh, indent=1)
